@@ -7,7 +7,7 @@
 import DemesVerif.Proofs.MsGrowAccInvApply
 namespace Demes.Proofs.MsGrow
 open Demes Demes.Ms Demes.Spec Demes.Spec.MsSem Demes.Spec.C08 Demes.Proofs.FromMs
-open Demes.Proofs.MsAcc (group_endX groupOps_move groupOps_qpos)
+open Demes.Proofs.MsAcc (group_endX_ok groupOps_move groupOps_qpos)
 
 /-- some size or growth option of the group names deme `j` -/
 def Sized (cs : List Cmd) (j : Nat) : Prop :=
@@ -28,12 +28,13 @@ theorem noSize_of_join {cs : List Cmd} (h : noSizeAtJoinGV cs = true) {t : Q} {i
 
 /-! ## one group -/
 
-theorem group_accInvV {N0 : Q} (hN : 0 < N0) {prev : Option Q} {T' : Q} {s s' : BState} {σ σ' : St}
+/-- one group of either fragment (`GroupOK`: `GoodGroup` or `GoodGroup3`) -/
+theorem group_accInvV_ok {N0 : Q} (hN : 0 < N0) {prev : Option Q} {T' : Q} {s s' : BState} {σ σ' : St}
     {evs : List (Event Num)}
     (hsim : Sim2 N0 (prev.getD 0) s σ) (hinv : AccInvV (prev.getD 0) s) (hnames : NameInv s)
     (hall : ∀ e ∈ evs, HasCmd e) (hne : evs ≠ []) (htime : ∀ e ∈ evs, 4 * N0 * (cmdOfD e).t = T')
     (hprev : PrevLt prev T')
-    (hgood : GoodGroup s.numDemes (evs.map cmdOfD) = true)
+    (hgood : GroupOK s.numDemes (evs.map cmdOfD))
     (hfrag : groupFragV s.numDemes (evs.map cmdOfD) = true)
     (hm : Ms.stepGroup N0 s evs = .ok s') (hs : Spec.MsSem.stepGroup N0 σ (evs.map cmdOfD) = .ok σ') :
     Sim2 N0 T' s' σ' ∧ AccInvV T' s' ∧ NameInv s'
@@ -73,7 +74,7 @@ theorem group_accInvV {N0 : Q} (hN : 0 < N0) {prev : Option Q} {T' : Q} {s s' : 
     | none => exact hT'pos
     | some T => exact hprev
   -- the end of the options
-  obtain ⟨hsim1, he, hex⟩ := group_endX hsim.1 hle hall htime hfold hsfold hgood hnames
+  obtain ⟨hsim1, he, hex⟩ := group_endX_ok hsim.1 hle hall htime hfold hsfold hgood hnames
   have hjs := events_joined evs hsim.1 hle hall htime hfold hsfold
   have hmid : Mid (Sized (evs.map cmdOfD)) (prev.getD 0) T' s s1 g1 := by
     refine events_mid hN hT0 evs hsim.1 hle hall htime hfc ?_ ?_ ?_ hmove hfold hsfold (mid_init evs hle hinv)
@@ -120,13 +121,26 @@ theorem group_accInvV {N0 : Q} (hN : 0 < N0) {prev : Option Q} {T' : Q} {s s' : 
       simpa using hf3 o ho
   exact hctx.accInvV
 
+theorem group_accInvV {N0 : Q} (hN : 0 < N0) {prev : Option Q} {T' : Q} {s s' : BState} {σ σ' : St}
+    {evs : List (Event Num)}
+    (hsim : Sim2 N0 (prev.getD 0) s σ) (hinv : AccInvV (prev.getD 0) s) (hnames : NameInv s)
+    (hall : ∀ e ∈ evs, HasCmd e) (hne : evs ≠ []) (htime : ∀ e ∈ evs, 4 * N0 * (cmdOfD e).t = T')
+    (hprev : PrevLt prev T')
+    (hgood : GoodGroup s.numDemes (evs.map cmdOfD) = true)
+    (hfrag : groupFragV s.numDemes (evs.map cmdOfD) = true)
+    (hm : Ms.stepGroup N0 s evs = .ok s') (hs : Spec.MsSem.stepGroup N0 σ (evs.map cmdOfD) = .ok σ') :
+    Sim2 N0 T' s' σ' ∧ AccInvV T' s' ∧ NameInv s'
+      ∧ s'.numDemes = s.numDemes + ((evs.map cmdOfD).filter isSplitC).length :=
+  group_accInvV_ok hN hsim hinv hnames hall hne htime hprev (groupOK_of_good hgood) hfrag hm hs
+
 /-! ## all groups -/
 
-theorem groups_accInvV {N0 : Q} (hN : 0 < N0) : ∀ (groups : List (List (Event Num))) (prev : Option Q)
+/-- all groups, each of either fragment (`groupsOK`) -/
+theorem groups_accInvV_ok {N0 : Q} (hN : 0 < N0) : ∀ (groups : List (List (Event Num))) (prev : Option Q)
     {s s' : BState} {σ σ' : St},
     Sim2 N0 (prev.getD 0) s σ → AccInvV (prev.getD 0) s → NameInv s →
     (∀ g ∈ groups, g ≠ [] ∧ ∀ e ∈ g, HasCmd e) → TimesOK2 N0 prev (groups.map (List.map cmdOfD)) →
-    goodGroups s.numDemes (groups.map (List.map cmdOfD)) = true →
+    groupsOK s.numDemes (groups.map (List.map cmdOfD)) →
     groupsFragV s.numDemes (groups.map (List.map cmdOfD)) = true →
     groups.foldlM (Ms.stepGroup N0) s = .ok s' →
     (groups.map (List.map cmdOfD)).foldlM (Spec.MsSem.stepGroup N0) σ = .ok σ' →
@@ -147,21 +161,33 @@ theorem groups_accInvV {N0 : Q} (hN : 0 < N0) : ∀ (groups : List (List (Event 
     obtain ⟨T', hprev, htg, hrest⟩ := ht
     obtain ⟨hne, hcmd⟩ := hall g (List.mem_cons_self ..)
     rw [List.map_cons] at hgood hfrag
-    simp only [goodGroups, Bool.and_eq_true] at hgood
+    simp only [groupsOK] at hgood
     simp only [groupsFragV, Bool.and_eq_true] at hfrag
-    obtain ⟨a1, a2, a3, a4⟩ := group_accInvV hN hsim hinv hn hcmd hne
+    obtain ⟨a1, a2, a3, a4⟩ := group_accInvV_ok hN hsim hinv hn hcmd hne
       (fun e he => htg _ (List.mem_map.mpr ⟨e, he, rfl⟩)) hprev hgood.1 hfrag.1 h1 hs1
     exact ih (some T') a1 a2 a3 (fun g' hg' => hall g' (List.mem_cons_of_mem _ hg')) hrest
       (by rw [a4]; exact hgood.2) (by rw [a4]; exact hfrag.2) hm hs
 
+theorem groups_accInvV {N0 : Q} (hN : 0 < N0) : ∀ (groups : List (List (Event Num))) (prev : Option Q)
+    {s s' : BState} {σ σ' : St},
+    Sim2 N0 (prev.getD 0) s σ → AccInvV (prev.getD 0) s → NameInv s →
+    (∀ g ∈ groups, g ≠ [] ∧ ∀ e ∈ g, HasCmd e) → TimesOK2 N0 prev (groups.map (List.map cmdOfD)) →
+    goodGroups s.numDemes (groups.map (List.map cmdOfD)) = true →
+    groupsFragV s.numDemes (groups.map (List.map cmdOfD)) = true →
+    groups.foldlM (Ms.stepGroup N0) s = .ok s' →
+    (groups.map (List.map cmdOfD)).foldlM (Spec.MsSem.stepGroup N0) σ = .ok σ' →
+    ∃ T, AccInvV T s' ∧ NameInv s' :=
+  fun groups prev _ _ _ _ hsim hinv hn hall ht hgood hfrag hm hs =>
+    groups_accInvV_ok hN groups prev hsim hinv hn hall ht (groupsOK_of_goodGroups _ _ hgood) hfrag hm hs
+
 /-! ## the whole event loop -/
 
-/-- **the event loop keeps `AccInv`** on commands of the fragment (`groupsFrag`) whose time groups are good
-(`Tame'`): at the end of the event loop of `build_graph` every deme of the Builder state has well-formed
+/-- **the event loop keeps `AccInv`** on commands of the fragment (`groupsFrag`) whose time groups are of either
+fragment of C08 (`groupsOK`: from `Tame'` or from `Tame3`): at the end of the event loop of `build_graph` every deme of the Builder state has well-formed
 epochs, the demes that were joined have a well-formed ancestry among demes that exist at the join time, and
 every pulse is between two different demes that exist at its time -/
-theorem buildState_accInvV {args : Args} {pr : Parsed} {N0 : Q} {s : BState} {σ : St}
-    (ha : ArgsAgree args pr) (ht : Tame' pr = true) (hf : groupsFragV pr.npop (cmdGroups pr) = true)
+theorem buildState_accInvV_ok {args : Args} {pr : Parsed} {N0 : Q} {s : BState} {σ : St}
+    (ha : ArgsAgree args pr) (hok : groupsOK pr.npop (cmdGroups pr)) (hf : groupsFragV pr.npop (cmdGroups pr) = true)
     (hm : buildState args N0 = .ok s) (hs : runState pr N0 = .ok σ) : ∃ T, AccInvV T s ∧ NameInv s := by
   unfold buildState at hm
   split at hm
@@ -185,7 +211,7 @@ theorem buildState_accInvV {args : Args} {pr : Parsed} {N0 : Q} {s : BState} {σ
   have hnum : (initState args N0).numDemes = pr.npop := by
     show (initPop args).1 = _
     rw [initPop_fst]; exact ha.npop
-  refine groups_accInvV hN (eventGroups args) none
+  refine groups_accInvV_ok hN (eventGroups args) none
     ⟨initial_sizeSim args pr N0 ha, initial_migSim args pr N0 ha⟩
     (accInv_initV args N0 hN (by rw [hnum]; exact ha.npos))
     (initState_names args N0) ?_ ?_ ?_ ?_ hm hs
@@ -227,9 +253,21 @@ theorem buildState_accInvV {args : Args} {pr : Parsed} {N0 : Q} {s : BState} {σ
       show (0 : Q) ≤ 4 * N0 * c.t
       exact Rat.mul_nonneg h4 (hnn c hcm)
   · rw [← hgroups, hnum]
-    exact ht
+    exact hok
   · rw [← hgroups, hnum]
     exact hf
+
+/-- `buildState_accInvV_ok` on the fragment `Tame'` -/
+theorem buildState_accInvV {args : Args} {pr : Parsed} {N0 : Q} {s : BState} {σ : St}
+    (ha : ArgsAgree args pr) (ht : Tame' pr = true) (hf : groupsFragV pr.npop (cmdGroups pr) = true)
+    (hm : buildState args N0 = .ok s) (hs : runState pr N0 = .ok σ) : ∃ T, AccInvV T s ∧ NameInv s :=
+  buildState_accInvV_ok ha (groupsOK_of_goodGroups _ _ ht) hf hm hs
+
+/-- `buildState_accInvV_ok` on the third fragment `Tame3` -/
+theorem buildState_accInvV3 {args : Args} {pr : Parsed} {N0 : Q} {s : BState} {σ : St}
+    (ha : ArgsAgree args pr) (ht : Tame3 pr = true) (hf : groupsFragV pr.npop (cmdGroups pr) = true)
+    (hm : buildState args N0 = .ok s) (hs : runState pr N0 = .ok σ) : ∃ T, AccInvV T s ∧ NameInv s :=
+  buildState_accInvV_ok ha (groupsOK_of_goodGroups3 _ _ ht) hf hm hs
 
 /-! ## non-vacuity -/
 
@@ -276,3 +314,4 @@ end Demes.Proofs.MsGrow
 #print axioms Demes.Proofs.MsGrow.group_accInvV
 #print axioms Demes.Proofs.MsGrow.groups_accInvV
 #print axioms Demes.Proofs.MsGrow.buildState_accInvV
+#print axioms Demes.Proofs.MsGrow.buildState_accInvV3
